@@ -16,7 +16,7 @@ DEFAULT = dict(
     weights=dict(ssink=3, ssinkc=1, csink=2, const=0.3, never=0.2, map=4, mapto=0.5, filter=2, filteropt=0.5,
                  merge=4, orelse=1.5, snapshot=3, snapshot1=0.7, snapshotn=0.5, gate=1, hold=2.5, once=1, updates=1,
                  value=1, mapc=1.5, lift2=2, liftn=0.5, accum=1.5, collect=1, defer=0, split=0, switchs=0, switchc=0,
-                 sloop=0, cloop=0, router=0, holdlazy=0, switchdyn=0, accumlazy=0, collectlazy=0, route=0, switchlate=0, switchlatec=0, snaplazy=0),
+                 sloop=0, cloop=0, router=0, holdlazy=0, switchdyn=0, accumlazy=0, collectlazy=0, route=0, switchlate=0, switchlatec=0, snaplazy=0, snapmapc=0, latelisten=0),
     max_defer=1, leakcheck=False, malformed=False, values=(-5, 15), coalesce_sends=False,
 )
 
@@ -109,6 +109,9 @@ class Gen:
         elif kind == "snapshotn" and s and c:
             cs = [self.C() for _ in range(r.randint(2, 5))]
             n = self.fresh("s"); L.append(f"snapshotn {n} {s} {' '.join(cs)}"); self.add_stream(n, self.t(s))
+        elif kind == "snapmapc" and s and c and c not in self.swc and not self.t(c) and self.ident.get(s, s) != self.ustream.get(c, "u:" + c):
+            # (not on the cell's own update stream: building on a stream inside a closure of that stream is known finding D16)
+            n = self.fresh("s"); L.append(f"snapmapc {n} {s} {c} {self.small()}"); self.add_stream(n, self.t(s))
         elif kind == "snaplazy" and s and c and c not in self.swc:
             n = self.fresh("s"); L.append(f"snaplazy {n} {s} {c}"); self.add_stream(n, self.t(s))
         elif kind == "gate" and s and c:
@@ -186,16 +189,24 @@ class Gen:
         elif kind == "switchdyn" and c and s and not self.t(c) and not self.t(s) and self.ident.get(s, s) != self.ustream.get(c, "u:" + c):
             # (the base must not be the selector's own update stream: known finding D16)
             n = self.fresh("s"); L.append(f"switchdyn {n} {c} {s} {self.op()}"); self.add_stream(n, self.t(s))
-        elif kind == "switchlate" and s and s2 and not self.t(s) and not self.t(s2) and self.ident.get(s, s) != self.ident.get(s2, s2):
+        elif kind == "switchlate" and s and s2 and not self.t(s) and not self.t(s2):
             # streams built on demand: every event of s builds a fresh stream on a base (often a map nothing else uses yet)
             base = s2
-            if self.r.random() < 0.6:
+            # (the base must not be the selector stream itself: building on a stream inside a closure of that stream is D16;
+            #  a map of it is fine, and is the interesting case: both fire in the same transaction)
+            if self.r.random() < 0.6 or self.ident.get(s, s) == self.ident.get(s2, s2):
                 base = self.fresh("s"); L.append(f"map {base} {s2} {self.small()}"); self.add_stream(base, set())
             n = self.fresh("s"); L.append(f"switchlate {n} {s} {base} {self.op()}"); self.add_stream(n, set())
-        elif kind == "switchlatec" and s and s2 and not self.t(s) and not self.t(s2) and self.ident.get(s, s) != self.ident.get(s2, s2):
+        elif kind == "latelisten" and s and s2 and not self.t(s) and not self.t(s2):
+            # FRP (a two-input node, a map, a listener) built inside a listener handler on the first event of s
+            base = s2
+            if self.r.random() < 0.5 or self.ident.get(s, s) == self.ident.get(s2, s2):
+                base = self.fresh("s"); L.append(f"map {base} {s2} {self.small()}"); self.add_stream(base, set())
+            L.append(f"latelisten {self.fresh('l')} {s} {base} {self.op()}")
+        elif kind == "switchlatec" and s and s2 and not self.t(s) and not self.t(s2):
             # cells built on demand (each on a fresh hold of the base) and switched to inside the transaction that built them
             base = s2
-            if self.r.random() < 0.6:
+            if self.r.random() < 0.6 or self.ident.get(s, s) == self.ident.get(s2, s2):
                 base = self.fresh("s"); L.append(f"map {base} {s2} {self.small()}"); self.add_stream(base, set())
             n = self.fresh("c"); L.append(f"switchlatec {n} {s} {base} {self.op()}"); self.add_cell(n, set()); self.swc.add(n)
         elif kind == "switchc" and c:
@@ -208,6 +219,11 @@ class Gen:
             for key in keys:
                 n = self.fresh("s"); L.append(f"route {n} {rn} {key}"); self.add_stream(n, self.t(s))
                 self.ident[n] = f"route:{rn}:{key}"      # the same key of one router is the same stream object
+                if r.random() < self.p.get("rerequest", 0.0):
+                    # the only handle is dropped at once (a stale table entry stays behind) and the key is requested again
+                    L.append(f"drop {n}"); self.dropped.add(n)
+                    if r.random() < 0.3: L.append("gc")
+                    n2 = self.fresh("s"); L.append(f"route {n2} {rn} {key}"); self.add_stream(n2, self.t(s)); self.ident[n2] = f"route:{rn}:{key}:again"
         elif kind in ("sloop", "cloop"):
             return self.gen_loop(kind)
         else:
@@ -400,13 +416,27 @@ class Gen:
                         if p.get("unlisten_new_in_txn") and self.listeners and r.random() < p["unlisten_new_in_txn"]:
                             # registered and unlistened again before the transaction closes
                             L.append(f"unlisten {self.listeners[-1]}")
+                L.extend(tail)
+                if p.get("hold_fired_in_txn") and r.random() < p["hold_fired_in_txn"]:
+                    # a cell built on a stream that was already sent to in this transaction, and read before it closes
+                    sent = [l.split()[1] for l in body if l.startswith("send ") and l.split()[1] in self.ssinks]
+                    if sent:
+                        x = r.choice(sent); c = self.fresh("c")
+                        L.append(f"hold {c} {x} {self.small()}" if r.random() < 0.7 else f"accum {c} {x} {self.small()} {self.op()}")
+                        self.add_cell(c, set())
+                        how = r.random()
+                        if how < 0.5: L.append(f"sample {c}")
+                        elif how < 0.8:
+                            n = self.fresh("s"); L.append(f"snapshot {n} {x} {c} {self.op()}"); self.add_stream(n, set())
+                            l = self.fresh("l"); L.append(f"listen {l} {n}"); self.listeners.append(l)
+                        else:
+                            z = self.fresh("z"); L.append(f"lazy {z} {c}"); self.lazies.append(z)
                 if p.get("listen_fired_in_txn") and r.random() < p["listen_fired_in_txn"]:
                     # a listener on a stream that was already sent to in this transaction, perhaps unlistened again at once
                     sent = [l.split()[1] for l in body if l.startswith("send ")]
                     if sent:
                         x = r.choice(sent); l = self.fresh("l"); L.append(f"listen {l} {x}"); self.listeners.append(l)
                         if r.random() < 0.5: L.append(f"unlisten {l}")
-                L.extend(tail)
             if r.random() < 0.1 and p["obs"] > 0: L.append("obs")
             # scoped closes may be non-LIFO
             flat = closes
